@@ -140,10 +140,10 @@ class PackedTensor(torch.Tensor):
 
     @classmethod
     def __torch_dispatch__(cls, op, types, args, kwargs=None):
-        # Convert back to tensor before calling any operation except detach
-        if op.overloadpacket is torch.ops.aten.detach:
+        # Convert back to tensor before calling any operation except detach and clone
+        if op.overloadpacket in (torch.ops.aten.detach, torch.ops.aten.clone):
             t = args[0]
-            data = op(t._data)
+            data = op(t._data, **(kwargs or {}))
             return PackedTensor(data, t._bits, t.size(), t.stride())
         elif op.overloadpacket in (torch.ops.aten._to_copy, torch.ops.aten.to):
             t = args[0]
